@@ -6,18 +6,18 @@ package criteria_ordering
 // Contracts for gocv (comment-only; compiled out unless the tag "verif" is set, and empty then).
 
 //@ ifacemethod CriteriaOrderingResolver.OrderCriteria
-//@   requires model.distinctCriteria(params.Criteria)
+//@   requires model.distinctCriteria(params.Criteria) && model.validParams(*listener, params.MethodParameters) && model.coversAll(*listener, params.MethodParameters, params.Criteria)
 //@   ensures result != nil && fresh(result) && fresh(*result) && model.rearranged(*result, params.Criteria)
 
 //@ func (*WeakestCriteriaOrderingResolver).OrderCriteria
 //@   property C15 C16
-//@   requires model.distinctCriteria(params.Criteria)
+//@   requires model.distinctCriteria(params.Criteria) && model.validParams(*listener, params.MethodParameters) && model.coversAll(*listener, params.MethodParameters, params.Criteria)
 //@   ensures [permutation] result != nil && fresh(result) && fresh(*result) && model.rearranged(*result, params.Criteria)
 //@   ensures [weakest_first] forall i int, j int :: 0 <= i && i < j && j < len(*result) ==> model.imp(*listener, params, (*result)[i].Id) <= model.imp(*listener, params, (*result)[j].Id)
 
 //@ func (*StrongestCriteriaOrderingResolver).OrderCriteria
 //@   property C15 C16
-//@   requires model.distinctCriteria(params.Criteria)
+//@   requires model.distinctCriteria(params.Criteria) && model.validParams(*listener, params.MethodParameters) && model.coversAll(*listener, params.MethodParameters, params.Criteria)
 //@   ensures [permutation] result != nil && fresh(result) && fresh(*result) && model.rearranged(*result, params.Criteria)
 //@   ensures [strongest_first] forall i int, j int :: 0 <= i && i < j && j < len(*result) ==> model.imp(*listener, params, (*result)[i].Id) >= model.imp(*listener, params, (*result)[j].Id)
 //@   loop 1 invariant [ctx] fresh(descending) && len(descending) == totalCount && totalCount == len(*ascending) && model.rearranged(*ascending, params.Criteria)
@@ -26,7 +26,7 @@ package criteria_ordering
 
 //@ func (*StrongestByProbabilityCriteriaOrderingResolver).OrderCriteria
 //@   property C15 C16
-//@   requires model.distinctCriteria(params.Criteria)
+//@   requires model.distinctCriteria(params.Criteria) && model.validParams(*listener, params.MethodParameters) && model.coversAll(*listener, params.MethodParameters, params.Criteria)
 //@   ensures [permutation] result != nil && fresh(result) && fresh(*result) && model.rearranged(*result, params.Criteria)
 //@   loop 1 invariant [ctx] fresh(result) && len(result) == criteriaCount && criteriaCount == len(*criteria) && model.rearranged(*criteria, params.Criteria)
 //@   loop 1 invariant [reversed] forall k int :: criteriaCount - iter <= k && k < criteriaCount ==> result[k] == (*criteria)[criteriaCount - 1 - k]
@@ -43,5 +43,5 @@ package criteria_ordering
 // property is assumed here (listed as a trusted contract in the evidence).
 //@ func (*WeakestByProbabilityCriteriaOrderingResolver).OrderCriteria
 //@   trusted
-//@   requires model.distinctCriteria(params.Criteria)
+//@   requires model.distinctCriteria(params.Criteria) && model.validParams(*listener, params.MethodParameters) && model.coversAll(*listener, params.MethodParameters, params.Criteria)
 //@   ensures result != nil && fresh(result) && fresh(*result) && model.rearranged(*result, params.Criteria)
